@@ -242,8 +242,31 @@ func runC18Reg(c *Ctx) {
 							conn.EnableStateTracking()
 						}
 						cur := nick
+						// in a quarter of the cells the second and third connect are made from inside the DISCONNECTED
+						// handler, after the server has dropped the link
+						inHandler := (idx/8)%4 == 3
+						var again int32
+						reconn := make(chan error, 1)
+						if inHandler {
+							conn.HandleFunc(client.DISCONNECTED, func(cc *client.Conn, l *client.Line) {
+								if atomic.LoadInt32(&again) == 1 {
+									reconn <- cc.Connect()
+								}
+							})
+						}
 						for ordinal := 1; ordinal <= 3; ordinal++ {
-							if err := conn.Connect(); err != nil {
+							var err error
+							if ordinal == 1 || !inHandler {
+								err = conn.Connect()
+							} else {
+								done := make(chan struct{})
+								go func() { err = <-reconn; close(done) }()
+								if !waitCh(done) {
+									c.R.Inconcl(fmt.Sprintf("%s: the DISCONNECTED handler never reconnected", Case("reg", idx)))
+									break
+								}
+							}
+							if err != nil {
 								c.R.Violate(rig.Violation{Sig: "c18|connect-failed", Detail: fmt.Sprintf("connect %d failed: %v", ordinal, err), Case: Case("reg", idx)})
 								break
 							}
@@ -301,6 +324,12 @@ func runC18Reg(c *Ctx) {
 							}
 							mc.SendLine("PING :wsync")
 							mc.WaitLineFrom(WaitLong, 0, func(l string) bool { return l == "PONG :wsync" })
+							if inHandler && ordinal < 3 {
+								atomic.StoreInt32(&again, 1)
+								mc.SendEOF()
+								continue
+							}
+							atomic.StoreInt32(&again, 0)
 							if !CloseWatched(conn) {
 								c.R.Inconcl(fmt.Sprintf("%s: Close did not return", Case("reg", idx)))
 								break
